@@ -2,6 +2,9 @@
 package rules
 
 import (
+	_ "embed"
+	"kverif/internal/an"
+
 	"sort"
 
 	"kverif/internal/load"
@@ -31,3 +34,8 @@ func IDs() []string {
 	sort.Strings(ids)
 	return ids
 }
+
+//go:embed ref/names.json
+var namesJSON []byte
+
+func init() { an.RefNames = namesJSON }
